@@ -18,7 +18,7 @@ from .interp import (Ctx, Frame, PyRaise, _Return, _Break, _Continue, PathEnd, I
 from .modules import Repo, node_hash
 from .values import (S, VOpt, VQty, VTime, VDelta, VEnum, SEnum, VRec, VRef, HObj, HList, HDict,
                      HSet, SymSeq, SymSet, SymMap, FuncRef, ClassRef, ModRef, ExtRef,
-                     BoundBuiltin, Opaque, Unsupported, fresh_name, reset_fresh, GhostSeq, KeySetVal, HKeySet, HOptDict)
+                     BoundBuiltin, Opaque, Unsupported, fresh_name, reset_fresh, GhostSeq, KeySetVal, HKeySet, HOptDict, HSymList)
 
 
 class FunctionReport:
@@ -285,6 +285,12 @@ class Engine:
             arrays = self.make_arrays(ctx, shape.elem, name, z3.IntSort())
             sq = SymSeq(n, ArrShape(self, shape.elem, ctx), arrays)
             sq.pyshape = shape
+            if shape.container in ("list", "deque"):
+                ml = None
+                if shape.maxlen is not None:
+                    ml = self.make_sym(ctx, shape.maxlen, name + ".maxlen") if hasattr(shape.maxlen, "kind") else shape.maxlen
+                    ctx.assume(n <= zof(ml, "int"))
+                return ctx.alloc(HSymList(sq, ml))
             return sq
         if k == "keyset":
             from . import keysets
@@ -496,6 +502,11 @@ class Engine:
         if isinstance(v, VRef):
             heap = ctx.old[1] if ctx.old is not None else ctx.heap
             h = heap.get(v.addr) or ctx.heap[v.addr]
+            if isinstance(h, HSymList):
+                j = self.val_json(ctx, None, h.seq, model)
+                if h.maxlen is not None:
+                    j["maxlen"] = self.val_json(ctx, None, h.maxlen, model)
+                return j
             if isinstance(h, HOptDict):
                 out = []
                 for k, e in h.entries.items():
@@ -1014,6 +1025,9 @@ class Engine:
                     same = False
             elif isinstance(h0, HKeySet):
                 if h0.val is not h1.val:
+                    same = False
+            elif isinstance(h0, HSymList):
+                if h0.seq is not h1.seq:
                     same = False
             elif isinstance(h0, HOptDict):
                 if set(h0.entries) != set(h1.entries) or any(
